@@ -18,10 +18,12 @@ import (
 
 	sdkmath "cosmossdk.io/math"
 	sdk "github.com/cosmos/cosmos-sdk/types"
+	authtypes "github.com/cosmos/cosmos-sdk/x/auth/types"
 	govv1 "github.com/cosmos/cosmos-sdk/x/gov/types/v1"
 	"github.com/ethereum/go-ethereum/accounts/abi"
 
 	"github.com/haqq-network/haqq/contracts"
+	"github.com/haqq-network/haqq/utils"
 )
 
 func init() { register("invariants", invariantsDriver) }
@@ -62,6 +64,9 @@ type invObs struct {
 	RouteList []string       `json:"route_names,omitempty"`
 	Checks    int            `json:"invariant_evaluations"`
 	Broken    []brokenInv    `json:"broken,omitempty"`
+	Credited  []string       `json:"blocked_address_credited_by_user_tx,omitempty"` // accepted transactions that paid a module account / precompile address from outside
+	Params    []string       `json:"parameter_changes,omitempty"`                   // "height h: module key=value ... -> ok / error"
+	ToBlocked map[string]int `json:"txs_naming_blocked_recipient,omitempty"`         // kind:recipient:accepted|rejected -> count
 	Panic     string         `json:"panic,omitempty"`
 	OKByKind  map[string]int `json:"ok_by_kind"`
 	ErrByKind map[string]int `json:"err_by_kind"`
@@ -201,10 +206,83 @@ func newPoolDenoms(before, after sdk.DecCoins) []string {
 
 func invRunCase(id string, in bhInput, gen *bhGenerator) Case {
 	h := newHistRun(in.Gen, repOpts{})
-	obs := invObs{GovEnds: map[string]int{}}
+	obs := invObs{GovEnds: map[string]int{}, ToBlocked: map[string]int{}}
 	xtags := map[string]bool{}
 	var poolBefore sdk.DecCoins
+	var hist []string // the operations the model has a rule for, as Coq terms (Bank/InvariantModel.v, hcase)
+	var before []sdk.Coins
+	curHeight, txNo := int64(-1), 0 // position of the transaction in its block (for the oracle message)
+	paramsNow := map[string]string{} // module.key -> last accepted value (to make the oracle message readable)
 	hooks := &stepHooks{
+		BeforeTx: func(h *histRun, height int64, t *bhTx) {
+			if height != curHeight {
+				curHeight, txNo = height, 0
+			} else {
+				txNo++
+			}
+			before = before[:0]
+			for _, i := range namedBlocked(*t) {
+				before = append(before, h.Rep.App.BankKeeper.GetAllBalances(h.Rep.ctx(), sdk.AccAddress(actorAddr(i).Bytes())))
+			}
+		},
+		AfterTx: func(h *histRun, height int64, t *bhTx, tr *txResult) {
+			accepted := (tr.Direct == "" && tr.Code == 0 && tr.VmErr == "") || tr.Direct == "ok"
+			if c := histCoq(*t, accepted); c != "" {
+				hist = append(hist, c)
+			}
+			if t.K == "param" {
+				var kvs []string
+				for _, kv := range t.X {
+					kvs = append(kvs, kv[0]+"="+kv[1])
+					if accepted {
+						paramsNow[t.S+"."+kv[0]] = kv[1]
+					}
+				}
+				obs.Params = append(obs.Params, fmt.Sprintf("height %d: %s %s -> %s", height, t.S, strings.Join(kvs, " "), tr.Direct))
+				xtags["param:"+t.S+":"+map[bool]string{true: "ok", false: "rejected"}[accepted]] = true
+				return
+			}
+			// ORACLE (the mechanism the accounting invariants rest on): a user transaction that names a blocked
+			// address as recipient must not be accepted with coins arriving there.  The fee collector also receives
+			// the fee of every transaction, so for it only the denominations other than the fee coin are compared,
+			// and an accepted plain (multi-)send of a positive amount to it is reported as such.
+			for n, i := range namedBlocked(*t) {
+				addr := sdk.AccAddress(actorAddr(i).Bytes())
+				if n >= len(before) || !h.Rep.App.BankKeeper.BlockedAddr(addr) {
+					continue
+				}
+				name := blockedName(i)
+				obs.ToBlocked[fmt.Sprintf("%s:%s:%s", t.K, name, map[bool]string{true: "accepted", false: "rejected"}[accepted])]++
+				xtags["to-blocked:"+t.K] = true
+				if tr.Direct != "" || tr.Code != 0 {
+					continue
+				}
+				after := h.Rep.App.BankKeeper.GetAllBalances(h.Rep.ctx(), addr)
+				var gained sdk.Coins
+				for _, c := range after {
+					if name == authtypes.FeeCollectorName && c.Denom == utils.BaseDenom {
+						continue
+					}
+					if d := c.Amount.Sub(before[n].AmountOf(c.Denom)); d.IsPositive() {
+						gained = append(gained, sdk.NewCoin(c.Denom, d))
+					}
+				}
+				plain := (t.K == "send" || t.K == "multisend") && name == authtypes.FeeCollectorName && accepted
+				if len(gained) > 0 || plain {
+					var ps []string
+					for k, v := range paramsNow {
+						ps = append(ps, k+"="+v)
+					}
+					sort.Strings(ps)
+					what := "credited it with " + gained.String()
+					if len(gained) == 0 {
+						what = "paid it " + t.A + t.D + " (besides the fee)"
+					}
+					obs.Credited = append(obs.Credited, fmt.Sprintf("height %d tx %d: %s signed by U%d naming the blocked address %s (%s) as recipient was ACCEPTED and %s (parameters changed so far: %s)",
+						height, txNo, t.K, ((t.F%bhNU)+bhNU)%bhNU, name, addr, what, strings.Join(ps, " ")))
+				}
+			}
+		},
 		BeforeEndBlock: func(h *histRun, height int64) {
 			poolBefore = h.Rep.App.DistrKeeper.GetFeePoolCommunityCoins(h.Rep.ctx())
 			govEnding(h.Rep, height, &obs, xtags)
@@ -245,7 +323,7 @@ func invRunCase(id string, in bhInput, gen *bhGenerator) Case {
 			hooks.GenTx = func(h *histRun, b *bhBlock, i int) *bhTx { return gen.genTx(h, b, idx, i) }
 		}
 		h.runBlock(b, nil, hooks)
-		if h.Dead != "" || len(obs.Broken) > 0 {
+		if h.Dead != "" || len(obs.Broken) > 0 || len(obs.Credited) > 0 {
 			in.Blocks = in.Blocks[:bi+1]
 			break
 		}
@@ -259,9 +337,16 @@ func invRunCase(id string, in bhInput, gen *bhGenerator) Case {
 		})
 	}
 	c := Case{ID: id, Kind: "history", Input: in, Obs: obs}
-	c.OracleOK = len(obs.Broken) == 0 && obs.Panic == ""
+	c.Coq, c.CoqList = coqList(hist), "hist"
+	c.OracleOK = len(obs.Broken) == 0 && obs.Panic == "" && len(obs.Credited) == 0
 	if !c.OracleOK {
-		if len(obs.Broken) > 0 {
+		if len(obs.Credited) > 0 {
+			c.OracleMsg = obs.Credited[0]
+			if len(obs.Broken) > 0 {
+				b := obs.Broken[0]
+				c.OracleMsg += fmt.Sprintf("; then invariant %s broken at height %d (%s): %s", b.Route, b.Height, b.When, b.Msg)
+			}
+		} else if len(obs.Broken) > 0 {
 			b := obs.Broken[0]
 			c.OracleMsg = fmt.Sprintf("invariant %s broken at height %d (%s): %s", b.Route, b.Height, b.When, b.Msg)
 		} else {
